@@ -101,7 +101,9 @@ def build_lin(cls, S, rank, dtype, c_none=False):
         return a[0] if rank == 0 else a
 
     A, B, C, D = stack("A"), stack("B"), stack("C"), stack("D")
-    c1, c2 = (None, None) if c_none else (stack("c1"), stack("c2"))
+    # c_none: False (both given), True (both None), "c1" / "c2" (only that one is None: the two offsets are independent options)
+    c1 = None if c_none in (True, "c1") else stack("c1")
+    c2 = None if c_none in (True, "c2") else stack("c2")
     if cls == "LTI":
         return pp.module.LTI(A, B, C, D, c1, c2)
 
@@ -309,9 +311,9 @@ def rand_lin_cfg(rng, cls):
          "B": [[rand_mat(rng, n, m) for _ in range(K)] for _ in range(B)],
          "C": [[rand_mat(rng, q, n) for _ in range(K)] for _ in range(B)],
          "D": [[rand_mat(rng, q, m) for _ in range(K)] for _ in range(B)]}
-    c_none = rng.random() < 0.25
-    S["c1"] = [[[0 if c_none else rng.randint(-5, 5) for _ in range(n)] for _ in range(K)] for _ in range(B)]
-    S["c2"] = [[[0 if c_none else rng.randint(-5, 5) for _ in range(q)] for _ in range(K)] for _ in range(B)]
+    c_none = rng.choice([False, False, False, False, True, True, "c1", "c2"])
+    S["c1"] = [[[0 if c_none in (True, "c1") else rng.randint(-5, 5) for _ in range(n)] for _ in range(K)] for _ in range(B)]
+    S["c2"] = [[[0 if c_none in (True, "c2") else rng.randint(-5, 5) for _ in range(q)] for _ in range(K)] for _ in range(B)]
     return {"cls": cls, "sys": S, "rank": rank, "c_none": c_none, "n": n, "m": m, "B": B, "K": K}
 
 
@@ -626,6 +628,8 @@ def trig_events(ctx, count):
                 "t": rng.randint(0, 5), "d": None, "via": rng.choice(["args", "recent"])}
         if i % 3 == 2:          # a non-integer reference time (e.g. step index x sampling period), given explicitly
             case["t"], case["via"] = rng.randint(0, 40) / 8 + 0.125, "args"
+            if i % 6 == 5:      # a history: the system was first linearised at its most recent point (integer clock), then
+                case["via"] = "rearm"    # re-linearised at the explicit point; the second reference must be the one given
         while True:
             d = [rng.choice([-1, 0, 1]) for _ in range(nv)]
             if any(d):
@@ -657,7 +661,13 @@ def trig_event(case, pp, torch, mpmath, eps, unit):
         obj = TrigNLS()
         x = torch.tensor(case["x"], dtype=torch.float64)
         u = torch.tensor(case["u"], dtype=torch.float64)
-        if case["via"] == "args" or case["t"] == 0:
+        if case["via"] == "rearm":
+            obj.reset(3)
+            obj(x + 1, u - 1)
+            obj.set_refpoint()
+            _ = obj.A, obj.c1
+            obj.set_refpoint(state=x, input=u, t=torch.tensor(case["t"]))
+        elif case["via"] == "args" or case["t"] == 0:
             obj.set_refpoint(state=x, input=u, t=torch.tensor(case["t"]))
         else:                       # most recent state / input / time
             obj.reset(case["t"] - 1)
